@@ -3,6 +3,7 @@ import numpy as np
 
 from ticcmon.workloads import data as wd
 
+NW_CAP = [12]          # set per shard (quick 12, thorough 24): bounds the cost of one optimisation task
 BETAS = [0, 0.5, 1, 5, 50, 400]
 LAMS = [0, 1e-3, 0.11, 0.5, 1, 5]
 
@@ -31,8 +32,11 @@ def _lam(rng, allow_matrix=True):
 
 
 def gen_single(rng, profile="general"):
-    N = int(rng.integers(1, 5))
-    W = int(rng.integers(1, 7))
+    while True:
+        N = int(rng.integers(1, 5))
+        W = int(rng.integers(1, 7))
+        if N * W <= NW_CAP[0]:
+            break
     K = int(rng.integers(2, 7))
     if profile == "small":
         N = int(rng.integers(1, 3))
@@ -49,7 +53,7 @@ def gen_single(rng, profile="general"):
     d = dict(gen="regime", seed=int(rng.integers(0, 2 ** 31)), T=T, N=N, n_reg=n_reg, seg=int(rng.integers(8, 40)),
              scale=float(10 ** rng.uniform(-6, 6)), flavor=flavor, logscale=6)
     case = dict(front="single", data=d, W=W, K=K, beta=_beta(rng), lam=_lam(rng),
-                m=int(rng.integers(1, 9)), limit=int(rng.choice([1, 2, 3, 20, 20, 1000])), biased=bool(rng.integers(0, 2)),
+                m=int(rng.integers(1, 9)), limit=int(rng.choice([1, 2, 3, 20, 20, 60])), biased=bool(rng.integers(0, 2)),
                 eps=float(rng.choice([0, 0, 0, 1e-6, 1e-3])), nproc=1, mp=False, rng_seed=int(rng.integers(0, 2 ** 31)), init=None)
     if profile == "empty_final":
         case["K"] = int(rng.integers(3, 7))
@@ -65,7 +69,7 @@ def gen_single(rng, profile="general"):
         case["m"] = int(rng.integers(1, 6))
         case["biased"] = True if kind == "giant" and case["init"]["small"] == 1 else case["biased"]
     if profile == "converge":
-        case["limit"] = int(rng.choice([20, 1000]))
+        case["limit"] = int(rng.choice([20, 60]))
         case["data"]["n_reg"] = int(rng.integers(2, 4))
         case["K"] = int(rng.integers(2, 4))
         case["eps"] = 0.0
